@@ -15,6 +15,7 @@ CONSTANTS
   CraftToks = {}
   MaxPresent = 2
   Calls = {"client", "time", "deliver"}
+  PumpPay = FALSE
   HealRounds = 20
   HealDt = 100
   Bound = 20
